@@ -8,10 +8,10 @@ NOT_APPLICABLE = {}
 META = {}
 META['C18'] = dict(
     text='Generated-input search: 2M (quick) / 20M (thorough) boundary-biased divisors and runs of consecutive divisors against a 128-bit floor-division oracle, '
-         'three-way with the C and the assembly routine; thorough additionally enumerates all 2^32-33 divisors (exhaustive for the reciprocal claim). '
+         'three-way with the C and the assembly routine; both tiers additionally enumerate all 2^32-33 divisors (exhaustive for the reciprocal claim; a seeded change hitting 828 of 2^32 divisors showed that sampling 2M of them is not enough). '
          'The no-op rule is explored over divisor x register x opcode x preceding-writer combinations in the decoder and through JIT/interpreter program equality.',
     note='Trusted: unsigned __int128 division of libgcc; the harness reading of "last-writer table" = CBRANCH target in decoded bytecode.',
-    technique='property-based testing (rapidcheck) with arithmetic reference oracle; exhaustive enumeration in thorough tier',
+    technique='property-based testing (rapidcheck) with arithmetic reference oracle; exhaustive enumeration of all divisors in both tiers',
 )
 
 META['C11'] = dict(
